@@ -24,23 +24,7 @@ PID = "C15"
 TRANSLATORS = ["T-invfilters"]
 
 # Genuine defects of halmos found by this check on the unchanged tree (see the final report).
-KNOWN = [
-    {"id": "C15-F9-block-fields-not-in-state-id", "property": "C15",
-     "what": "snapshot_state ignores block fields: a state reached through vm.roll/vm.fee/vm.chainId in a handler is dropped as a duplicate (here: of the setUp state); r(); n() with n() guarded by block.number == 5 breaks the invariant but the test PASSes",
-     "match": {"defect": "missed-violation", "needs": "cheat", "dup_dropped": True}},
-    {"id": "C15-setup-merge-loses-time", "property": "C15",
-     "what": "a post-state whose id equals the setUp state's is dropped although its timestamp is refreshed (>= previous) while the setUp state keeps timestamp 1: noop(); late() with late() guarded by block.timestamp >= 100 is not explored, the test PASSes",
-     "match": {"defect": "missed-violation", "needs": "time", "dup_dropped": True}},
-    {"id": "C15-top-level-value-not-transferred", "property": "C15",
-     "what": "the symbolic msg.value of an invariant target call is visible to CALLVALUE but never moved: the target's balance is unchanged after a payable call, `address(target).balance == 0` PASSes although dep{value: 1}() breaks it",
-     "match": {"defect": "missed-violation", "needs": "value", "inv_kind": "bal_zero"}},
-    {"id": "C15-F12-probe-not-in-verdict", "property": "C15",
-     "what": "an assertion failure inside a target function is handed to a probe handler with a dummy context: the invariant test prints [PASS] and halmos exits 0 (the probe's solver job is usually cancelled: 'executor has been shutdown', no counterexample is printed)",
-     "match": {"defect": "probe-not-in-verdict"}},
-    {"id": "C15-exclude-selectors-adds-view-and-reserved", "property": "C15",
-     "what": "with excludeSelectors() for a contract (and no targetSelectors()), resolve_target_selectors yields every non-excluded method including view/pure ones and, on the test contract, setUp()/test_*/invariant_*; Foundry only fuzzes state-changing, non-reserved functions",
-     "match": {"defect": "selector-overselection", "branch": "excluded"}},
-]
+KNOWN = common.known_for("C15")  # entries live in /verif/known_findings.json
 
 ASSUMPTIONS = [
     "C15_cover / C15_pass_sound are conditional on their visible hypotheses: per-transaction completeness of the symbolic engine (property C02), completeness of the invariant's own run, and the merge hypothesis (equal state ids stand for the same concrete states, also w.r.t. the setUp state) -- the latter is refuted for block fields and for the setUp timestamp (C15_merge_identical_refuted, C15_merge_setup_refuted) and the refutations are reproduced on the real code",
